@@ -194,14 +194,32 @@ def run_case(ctx, case):
               case, lambda: {"given": values.ravel()[:6].tolist(),
                              "stored": np.asarray(gr.data).ravel()[:6].tolist()})
     stored = np.array(gr.data, copy=True)
+    if int(case["seed"]) % 5 == 2 and nrows * ncols >= 2:
+        # the grid is the product of Grid.apply with a function returning its result in
+        # column-major order (a transpose of a transpose, pandas .values ...): the cells
+        # are the same, the memory behind them is not
+        try:
+            ga = gr.apply(lambda d_: np.asfortranarray(d_) if d_.ndim == 2
+                          else np.asarray(d_))
+            if cells_equal(ga.data, stored):
+                gr = ga
+                ctx.tag("grid:from-apply-column-major")
+        except Exception:
+            pass
     wd = workdir()
     # file names as they occur in archives of sub-grids: brackets, blanks, dots
     sub = wd / f"case{ctx.evaluations}"
     sub.mkdir(parents=True, exist_ok=True)
     stem = ["g", "grid_drainage[lake_eyre]", "g", "dem 30m", "a.b.c", "g",
-            "x[1]", "run(2)"][int(case["seed"]) % 8]
+            "x[1]", "run(2)", "mobile_gauge_dem", "g", "stability.bil.v2_",
+            "bilbil"][int(case["seed"]) % 12]
     if stem != "g":
         ctx.tag("filename:special-characters")
+    if int(case["seed"]) % 7 == 3:
+        # ... and folders named after their content
+        sub = sub / ["bil_rasters", "hdr", "grids.bil"][int(case["seed"]) // 7 % 3]
+        sub.mkdir(parents=True, exist_ok=True)
+        ctx.tag("filename:extension-letters-in-folder")
     base = sub / f"{stem}{ctx.evaluations}"
     fbil = str(base) + ".bil"
     fhdr = str(base) + ".hdr"
